@@ -195,9 +195,44 @@ fn run_xrun(cx: &mut Ctx, ex: &Exchange, r: &mut Rng, mode: usize) {
     }
 }
 
+/// an `Expect` request that the server answers with a final response and no interim 100: whether the body
+/// goes out depends (legitimately) on the schedule, so each run is a group of its own; the response side
+/// and the model comparison are checked as for every exchange
+fn refusal_exchange(r: &mut Rng) -> Exchange {
+    let method = *r.pick(&["POST", "PUT", "PATCH"]);
+    let payload: Vec<u8> = (0..r.range(0, 60)).map(|i| (i * 11 % 251) as u8).collect();
+    let mut hs: Vec<(String, Vec<u8>)> = vec![("expect".into(), b"100-continue".to_vec())];
+    if r.chance(1, 2) { hs.push(("content-length".into(), payload.len().to_string().into_bytes())); }
+    let mut req = format!("{} HTTP/1.1 http://a.test/up {}", method, hs.len());
+    for (k, v) in &hs { req.push_str(&format!(" {} {}", k, hx(v))); }
+    let status = *r.pick(&[403u16, 417, 200, 404, 500, 101]);
+    let body: Vec<u8> = if status == 101 { vec![] } else { (0..r.range(0, 30)).map(|_| *r.pick(b"ab\r\n0;x")).collect() };
+    let mut stream = if r.chance(1, 3) && status != 101 {
+        // a bare status line: decisive only once the blank line has arrived
+        format!("HTTP/1.1 {} No\r\n\r\n", status).into_bytes()
+    } else {
+        format!("HTTP/1.1 {} No\r\nX-Why: policy\r\nContent-Length: {}\r\n\r\n", status, body.len()).into_bytes()
+    };
+    let bare = !stream.windows(2).any(|w| w == b": ");
+    if !bare { stream.extend_from_slice(&body); }
+    let msglen = stream.len();
+    // a bare non-1xx status line leaves the body close-delimited: then nothing follows
+    let close = bare && status != 101;
+    if !close { stream.extend_from_slice(NEXT); }
+    Exchange { req, payload, stream, msglen, forbid: None, close }
+}
+
 pub fn c01(cx: &mut Ctx) {
     let groups = if cx.thorough { 1500 } else { 150 };
     let schedules = if cx.thorough { 24 } else { 12 };
+    for k in 0..(if cx.thorough { 400 } else { 60 }) {
+        let mut r = cx.case("xref");
+        let ex = refusal_exchange(&mut r);
+        cx.meta(&format!("group r{}", k));
+        cx.meta(&format!("msglen {}", ex.msglen));
+        cx.meta(&format!("payload {}", hx(&ex.payload)));
+        run_xrun(cx, &ex, &mut r, k % 4);
+    }
     for g in 0..groups {
         let mut r0 = Rng::for_case(cx.seed ^ 0x5151, g as u64);
         let ex = gen_exchange(&mut r0);
